@@ -19,8 +19,20 @@ prop('C18',
               'callers respect drip.Write requires (no Write after an error; Buffer and data do not alias)'],
      not_decided='the relay goroutine of GetWriter and the construction of the drip writer in GetWriter (len(Buffer) == BlockSize) are not under contract; tiling of wound ranges across blocks follows from start == k*BS and end == start + cbs by arithmetic outside the verified text')
 
+SIGN = [('/splitfunc', 'New$1'), ('/wsync', '(*Context).CreateSignature$1'), ('/wsync', '(*Context).CreateSignature'),
+        ('/pwr', 'ComputeHashInfo')]
+
+prop('C04',
+     functions=SIGN + BLOCKVALIDATOR + HASHING,
+     assumes=['A-MD5', 'A-IO: bufio.Scanner driven by the split function delivers the blocks of the content in order (token <= buffer size)',
+              'A-PROTO', 'A-COMP', 'A-SIZE (well-formed container: sizes in range, unique paths)'],
+     not_decided='that bufio.Scanner, the two io.Pipe readers of multiread and the (de)compressors deliver the same bytes to both producers; ReadSignature positional correspondence (see DESIGN)')
+
 # properties with a registered check
-CLAIMED = set()
+CLAIMED = {'C18', 'C04'}
 # reasons for properties not claimed (kept current)
 NOT_APPLICABLE = {}
-LEVEL_TEXT = {}
+LEVEL_TEXT = {
+ 'C18': {'text': 'Proof (modular, unbounded in write slicing and sizes): drip.Write/Close keep the ghost relation between accepted, validated and forwarded bytes for every slicing; the validate closure advances the block index once per call and emits one wound per call; ValidateAsWound/AsError decide exactly healthyBlock and report the signed block range.', 'design_ref': 'DESIGN.md §5 C18, App. A.2'},
+ 'C04': {'text': 'Proof of the function-level clauses: split function cases, one hash per scanned block plus the empty-file entry with correct index/short size, hash grouping by prefix sums of per-file hash counts (ComputeHashInfo, incl. error iff count differs), block validator verdicts; rolling/from-scratch weak hash equals the recursive specification.', 'design_ref': 'DESIGN.md §5 C04'},
+}
